@@ -170,11 +170,12 @@ uint64_t read_uint63_t(int &c, SOURCE read_char) {
     }
     uint64_t result = 0;
     do {
-        result *= 10;
-        result += c - '0';
-        if (result >= uint64_t{1} << 63) {
+        uint64_t digit = (uint64_t)(c - '0');
+        if (result > ((uint64_t{1} << 63) - 1 - digit) / 10) {
             throw std::invalid_argument("Number too large.");
         }
+        result *= 10;
+        result += digit;
         c = read_char();
     } while (c >= '0' && c <= '9');
     return result;
